@@ -73,6 +73,29 @@ theorem slot_out_history (h : Hashing) (W : SyncIn) (r k : Int) (hF : Final h W)
   rw [desired_unlist_erase r W.view.slots k h0 hkS hk]
   exact hbefore.symm
 
+/-- **plain scale-out by one, the whole history**: afterwards the occupied ordinals are those before plus one new ordinal,
+    above all of them and not a slot -/
+theorem scale_out_history (h : Hashing) (W : SyncIn) (r : Int) (hF : Final h W)
+    (hr : W.view.replicas = some r) (h0 : 0 ≤ r)
+    (hw : wfWorld h (applyEdits [.replicas (r + 1)] W) = true) (hx : extraMB h (applyEdits [.replicas (r + 1)] W) = true) :
+    ∃ n ≤ roundBound (applyEdits [.replicas (r + 1)] W), Final h (roundsN h n (applyEdits [.replicas (r + 1)] W)) ∧
+      ∃ o, 0 ≤ o ∧ o ∉ W.view.slots ∧ (∀ p ∈ (ownPods W).map (·.pod.ord), p < o) ∧
+        ((ownPods (roundsN h n (applyEdits [.replicas (r + 1)] W))).map (·.pod.ord)).Perm
+          ((ownPods W).map (·.pod.ord) ++ [o]) := by
+  obtain ⟨n, hn, hf, hp⟩ := edits_converge_to_desired h _ W hw hx
+  have hbefore := final_ords hF
+  have hrW : replicasOf W.view = r := by simp [replicasOf, hr]
+  rw [hrW] at hbefore
+  have hne : ¬ W.view.replicas = some (r + 1) := by
+    intro h; rw [hr] at h; injection h with h; omega
+  have hview : desired (replicasOf (applyEdits [.replicas (r + 1)] W).view) (applyEdits [.replicas (r + 1)] W).view.slots =
+      desired (r + 1) W.view.slots := by
+    simp [applyEdits, applyEdit, editReplicas, hne, replicasOf]
+  obtain ⟨o, ho, ho0, hoS, hlt⟩ := desired_succ r W.view.slots h0
+  refine ⟨n, hn, hf, o, ho0, hoS, fun p hp' => hlt p (hbefore.mem_iff.1 hp'), ?_⟩
+  rw [hview, ho] at hp
+  exact hp.trans (List.Perm.append_right _ hbefore.symm)
+
 /-- **plain scale-in by one, the whole history**: afterwards the occupied ordinals are those before without the top one -/
 theorem scale_in_history (h : Hashing) (W : SyncIn) (r : Int) (hF : Final h W)
     (hr : W.view.replicas = some (r + 1)) (h0 : 0 ≤ r)
